@@ -498,20 +498,22 @@ CLAIM = dict(
          "the words at string level (textwrap_fill_words_preserved) and respects the width at chunk level (textwrap_width_bound). "
          "Lean 4 proof for ALL texts that fix_whitespace (the composition of the three re.sub calls with the regexes extracted "
          "from the source, run by a backtracking-regex model proved sound w.r.t. a relational semantics) changes nothing but "
-         "whitespace, keeps every code line (non-blank lines, right-stripped, with indentation, in order: fix_preserves_code_lines) and ends "
-         "the result with exactly one newline; the tail of rst() cannot terminate a docstring and a plain comment reaches the docstring with "
+         "whitespace, keeps every code line (non-blank lines, right-stripped, with indentation, in order: fix_preserves_code_lines), ends "
+         "the result with exactly one newline and IS IDEMPOTENT (fix_idempotent: each re.sub pass is proved equal to a run-local rewriting "
+         "of the maximal whitespace runs, using soundness AND completeness of the regex-engine model for look-free patterns); the tail of rst() cannot terminate a docstring and a plain comment reaches the docstring with "
          "exactly its words (plain_comment_words_reach_docstring). Executable Lean "
          "models of textwrap.wrap/fill, lines.wrap and the rst fast path validated differentially (T2) on thousands of generated "
          "texts and on EVERY text over a seven-character alphabet up to length 4 (5 in thorough); model-independent oracles for word "
          "preservation, width bound, docstring safety, AST invariance and idempotence on emitted and grammar-generated sources.",
     technique="Lean 4 theorems (word-preservation of lines.wrap by a contextual word equivalence, chunk-level invariants of textwrap, "
-              "regex-engine soundness + per-pattern inversion) over T1-translated regexes + T2 differential of the executable models",
+              "regex-engine soundness and completeness + per-pattern inversion, fix_whitespace as one run-local pass) over T1-translated regexes + T2 differential of the executable models",
     design="7.20",
     note="Proved for all inputs: wrap_words_preserved, wrap_never_raises, wrapColon_regex_is_colonSub, textwrap_fill_words_preserved, "
+         "fix_idempotent, fix_is_one_pass_over_runs, matcher_exact_on_fix_patterns, "
          "wrap_width_bound (every line of the result fits the width - the first line width - offset - or is one unbreakable word behind its "
          "indent; string level), fix_only_removes_whitespace, fix_ends_one_newline, textwrap_words_preserved and textwrap_width_bound (the "
          "_wrap_chunks core, any width/indents/chunks), rst_output_doc_safe (the tail of rst(), both branches). NOT proved, decided by T2 + "
-         "oracle only: idempotence of fix_whitespace (2.4 million small inputs tried by hand: idempotent) and the last step from "
+         "oracle only: the last step from "
          "fix_preserves_code_lines (every non-blank line, right-stripped, with its indentation, is kept in order: proved) to equality of the "
          "Python AST (checked with ast.dump on every source). The pandoc branch of rst() is not exercised (pandoc absent).",
 )
